@@ -164,6 +164,16 @@ CHECKS.update({
             "DESIGN.md section 4, C10"),
 })
 
+CHECKS.update({
+    "C20": ("Hypothesis-drawn job sequences in a long-lived process compared with fresh-interpreter baselines (differential over histories) + before/after snapshots",
+            "Sequences of up to 12 jobs (shipped corpus pairs with their shipped rulebooks, synthetic jobs over shared synthetic rulebooks "
+            "with rule-mutating logic and shared ACL texts) run in one process: each result must equal the result of the same job in a "
+            "fresh interpreter, the caller's trees and the compiled rulebook must be unchanged by each call, and a logic function must "
+            "always see a pristine rule. Exploration over histories.",
+            "Trusted: canonical form of compiled rulebooks (vf/props/c18.canon); fresh baselines come from the same code (history vs no history).",
+            "DESIGN.md section 4, C20"),
+})
+
 NOT_YET = {}
 
 
